@@ -102,10 +102,20 @@ def matchTriple (q : Char) (text : Str) : Bool :=
   | some w => tripleInner q w
   | none => false
 
-/-- `is_quoted(text, triple)` -/
-def isQuoted (triple : Bool) (text : Str) : Bool :=
+/-- HISTORICAL (before /repo commit 65e15f6): `is_quoted` was the two regular expressions alone -/
+def isQuotedOld (triple : Bool) (text : Str) : Bool :=
   (matchSingle '"' text || matchSingle '\'' text) ||
   (triple && (matchTriple '"' text || matchTriple '\'' text))
+
+/-- the empty string written with six quote characters (`text in ('""""""', "''''''")`) -/
+def isEmptyTriple (text : Str) : Bool :=
+  text == ['"', '"', '"', '"', '"', '"'] || text == ['\'', '\'', '\'', '\'', '\'', '\'']
+
+/-- `is_quoted(text, triple)`: the one-line regex, or — with `triple` — the six-quote empty string or the
+triple regex -/
+def isQuoted (triple : Bool) (text : Str) : Bool :=
+  (matchSingle '"' text || matchSingle '\'' text) ||
+  (triple && (isEmptyTriple text || (matchTriple '"' text || matchTriple '\'' text)))
 
 /-! ## 2. `ast.literal_eval` on string literals (CPython; parameter of the property)
 
@@ -249,9 +259,18 @@ def pyEval (text : Str) : EvalR :=
   if t.contains (Char.ofNat 0) then .valueError
   else evalConcat (t.length + 1) t
 
-/-- `unquote_str(text, triple)`: `.valueError` is the documented `ValueError` -/
+/-- `text.replace('\x00', '\\x00')`: a raw NUL becomes its four-character escape -/
+def nulEscape (text : Str) : Str :=
+  text.flatMap fun c => if c = Char.ofNat 0 then ['\\', 'x', '0', '0'] else [c]
+
+/-- `unquote_str(text, triple)`: `.valueError` is the documented `ValueError`.  Since /repo commit cada0b1 the
+text is evaluated with every raw NUL replaced by its escape. -/
 def unquoteStr (triple : Bool) (text : Str) : EvalR :=
-  if isQuoted triple text then pyEval text else .ok text
+  if isQuoted triple text then pyEval (nulEscape text) else .ok text
+
+/-- HISTORICAL (before commits 65e15f6 and cada0b1): old recogniser, `literal_eval(text)` on the text as it is -/
+def unquoteStrOld (triple : Bool) (text : Str) : EvalR :=
+  if isQuotedOld triple text then pyEval text else .ok text
 
 /-! ## 3. The quoting function of the property -/
 
@@ -273,6 +292,13 @@ def quote1 (q : Char) (s : Str) : Str := q :: (s.flatMap (esc1 q) ++ [q])
 
 /-- `"""…"""` / `'''…'''` (newlines stay raw) -/
 def quote3 (q : Char) (s : Str) : Str := q :: q :: q :: (s.flatMap (escChar q) ++ [q, q, q])
+
+/-- the same quoted forms with a NUL character left raw (what a tool that does not know Python's source
+rules writes; readable since commit cada0b1) -/
+def escCharR (q : Char) (c : Char) : Str := if c = Char.ofNat 0 then [c] else escChar q c
+def esc1R (q : Char) (c : Char) : Str := if c = Char.ofNat 0 then [c] else esc1 q c
+def quote1R (q : Char) (s : Str) : Str := q :: (s.flatMap (esc1R q) ++ [q])
+def quote3R (q : Char) (s : Str) : Str := q :: q :: q :: (s.flatMap (escCharR q) ++ [q, q, q])
 
 /-! ## 4. INI value pipeline (`IniConfigParser.parse`) -/
 
